@@ -1,11 +1,20 @@
 /-!
 # Queue events (C02) — model of `_process_queue_event`, `_run_handlers_sequential`, `QueuedEvent`, `add_async_handler`
-in `mpf/core/events.py` (as it is after the D24 and D4 repairs)
+in `mpf/core/events.py` (as it is after the D24, D4 and wait-handler repairs)
 
 * every handler invocation gets a fresh `QueuedEvent` cell (addressed by its index in `cells`); a cell inherited through
   the posted kwargs (`passed`, the `Mode.start` pattern) is only handed on to the completion callback;
 * a dispatch task runs handlers of its snapshot one after the other; after a handler it tests `cell.waiter`, creates a
   fresh `asyncio.Event` in `cell.event` and sleeps on it; `clear` resets `waiter` and sets the cell's *current* event;
+* handlers carry kwargs and an optional `k==v` condition: a handler is called with the posted kwargs (never the posted
+  `queue`) overridden by its own, and skipped when its condition fails on those; the callback gets the posted kwargs;
+* a coroutine handler (`add_async_handler`) registers a wait; `_async_handler_done` clears it when the coroutine returned
+  **or its task ended cancelled**, and leaves it when the coroutine raised (`asyncDone`);
+* `wait_for_event` / `wait_for_any_event`: ordinary registry entries whose program removes all entries of the future and
+  resolves it unless it is done (`resolveWait`); `cancelWait` = `future.cancel()`, the removal of its entries is a later
+  scheduler step (a `top` op with the removals, logged from `_remove_wait_handlers`);
+* `EventManager.stop()` (`stopAll`): later posts are refused, every existing unfinished task is cancelled for good; events
+  that were already waiting in the event queue are still dispatched into new tasks (as the implementation does);
 * scheduler choices are inputs: `resume sn` (one step of a task, up to its next await), `dispatch` / `callbacks` (the two
   halves of `process_event_queue`), `clear c` (a timer / a finished coroutine clears a wait).  `none` = not enabled.
 -/
@@ -16,22 +25,58 @@ structure Cell where
   event : Option Nat := none
   deriving DecidableEq, Repr
 
+/-- kwargs: a Python dict with int values, in insertion order -/
+abbrev Kw := List (Nat × Int)
+
+/-- `d[k] = v` -/
+def kwSet : Kw → Nat → Int → Kw
+  | [], k, v => [(k, v)]
+  | (k', v') :: r, k, v => if k' = k then (k, v) :: r else (k', v') :: kwSet r k v
+
+/-- `dict(list(d.items()) + list(u.items()))` -/
+def kwUpdate (d : Kw) : Kw → Kw
+  | [] => d
+  | (k, v) :: r => kwUpdate (kwSet d k v) r
+
+def kwGet : Kw → Nat → Option Int
+  | [], _ => none
+  | (k', v) :: r, k => if k' = k then some v else kwGet r k
+
+/-- `rh.kwargs == kwargs` on dicts without duplicate keys -/
+def kwSame (a b : Kw) : Bool := a.length == b.length && a.all (fun p => kwGet b p.1 == some p.2)
+
 structure Handler where
   key : Nat
   prio : Int
   pid : Nat
+  kw : Kw := []                        -- kwargs given to add_handler
+  cond : Option (Nat × Int) := none    -- `event{k==v}`: called only if the merged kwargs have k = v
+  deriving DecidableEq, Repr
+
+/-- `handler.condition is None or handler.condition.evaluate(merged_kwargs)` for conditions of the form `k==v` -/
+def condHolds (c : Option (Nat × Int)) (merged : Kw) : Bool :=
+  match c with
+  | none => true
+  | some (k, v) => kwGet merged k == some v
+
+/-- how the task of a coroutine handler ended -/
+inductive Outcome | ok | cancelled | raised
   deriving DecidableEq, Repr
 
 inductive Act
   | wait                                        -- queue.wait() on the handler's own cell
   | clearOwn                                    -- queue.clear() on the handler's own cell
-  | postQueue (ev cb : Nat) (pass : Bool)       -- post_queue(ev, cb [, queue=own cell])
+  | postQueue (ev cb : Nat) (pass : Bool) (kw : Kw)  -- post_queue(ev, cb [, queue=own cell], **kw); cb 0 = post_queue_async
   | add (ev : Nat) (h : Handler)
   | remove (ev key : Nat)
   | clearPassed                                 -- (callback) clear the cell that came with the post
   | replace (ev : Nat) (h : Handler)            -- replace_handler(ev, callback h.pid, h.prio): drop its entries, add
   | removeFn (pid : Nat)                        -- remove_handler(method)
   | removeEvFn (ev pid : Nat)                   -- remove_handler_by_event(ev, handler)
+  | cancelCoro (key : Nat)                      -- task.cancel() on a coroutine handler's task: nothing happens *now*
+  | resolveWait (wid : Nat)                     -- tail of `_wait_handler`: set the future's result unless it is done
+  | cancelWait (wid : Nat)                      -- future.cancel() of a wait_for_event / wait_for_any_event future
+  | stop                                        -- EventManager.stop()
   deriving DecidableEq, Repr
 
 structure Prog where
@@ -44,13 +89,15 @@ structure Posted where
   cb : Nat
   passed : Option Nat
   sn : Nat
+  kw : Kw := []
   deriving DecidableEq, Repr
 
 inductive Obs
-  | call (key ev sn cell : Nat)
-  | acall (key ev sn cell : Nat)
-  | cb (pid sn : Nat)
+  | call (key ev sn cell : Nat) (kw : Kw)      -- kw = the merged kwargs the handler is called with
+  | acall (key ev sn cell : Nat) (kw : Kw)
+  | cb (pid sn : Nat) (kw : Kw)                -- kw = the kwargs as posted
   | error (what : Nat)          -- 1 = "Double lock", 2 = "Not locked"
+  | wres (wid : Nat)            -- the future of wait_for_event / wait_for_any_event got its result
   deriving DecidableEq, Repr
 
 structure Task where
@@ -58,6 +105,8 @@ structure Task where
   ev : Nat
   cb : Nat
   passed : Option Nat
+  kw : Kw := []
+  cancelled : Bool := false                 -- EventManager.stop() cancelled the task
   rest : Option (List Handler) := none      -- none: not started yet; some l: handlers still to run
   awaiting : Option (Nat × Nat) := none     -- (cell, asyncio.Event) the task sleeps on
   done : Bool := false
@@ -72,9 +121,12 @@ structure St where
   nextEvt : Nat := 0
   nextSn : Nat := 0
   pending : List Posted := []
-  cbq : List (Nat × Nat × Option Nat) := []
+  cbq : List (Nat × Nat × Option Nat × Kw) := []
   tasks : List Task := []
   log : List Obs := []
+  stopped : Bool := false
+  wresolved : List Nat := []
+  wcancelled : List Nat := []
   deriving DecidableEq, Repr
 
 def regGet : Reg → Nat → List Handler
@@ -116,37 +168,62 @@ def waitCell (st : St) (c : Nat) : St :=
   if cell.waiter then { st with log := st.log ++ [Obs.error 1] }
   else { st with cells := setCell st.cells c { cell with waiter := true } }
 
+/-- `_async_handler_done(queue, future)`: `future.result()` re-raises what the coroutine raised (the wait stays);
+a coroutine that returned or whose task was cancelled clears the wait of its handler -/
+def asyncDone (st : St) (c : Nat) : Outcome → St
+  | .raised => st
+  | _ => clearCell st c
+
+/-- entries `replace_handler(event, handler, priority, **kwargs)` removes -/
+def replaceMatches (h x : Handler) : Bool :=
+  if h.kw.isEmpty then x.pid == h.pid else x.pid == h.pid && kwSame x.kw h.kw
+
+/-- `EventManager.stop()`: no further posts are accepted, every dispatch task that exists now is cancelled -/
+def stopAll (st : St) : St :=
+  { st with stopped := true, tasks := st.tasks.map (fun t => if t.done then t else { t with cancelled := true }) }
+
 /-- one action; `own` = the running handler's cell, `passed` = the cell that came with the post (callbacks) -/
 def runAct (own passed : Option Nat) (st : St) : Act → St
   | .wait => match own with | some c => waitCell st c | none => st
   | .clearOwn => match own with | some c => clearCell st c | none => st
   | .clearPassed => match passed with | some c => clearCell st c | none => st
-  | .postQueue ev cb pass =>
-    { st with nextSn := st.nextSn + 1,
-              pending := st.pending ++ [⟨ev, cb, if pass then own else none, st.nextSn⟩] }
+  | .postQueue ev cb pass kw =>
+    if st.stopped then { st with nextSn := st.nextSn + 1 }       -- `_post`: "Event after stop", dropped
+    else { st with nextSn := st.nextSn + 1,
+                   pending := st.pending ++ [⟨ev, cb, if pass then own else none, st.nextSn, kw⟩] }
   | .add ev h => { st with reg := regSet st.reg ev (sortDesc (regGet st.reg ev ++ [h])) }
   | .remove ev key => { st with reg := regSet st.reg ev ((regGet st.reg ev).filter (fun h => h.key != key)) }
   | .replace ev h =>
-    { st with reg := regSet st.reg ev (sortDesc ((regGet st.reg ev).filter (fun x => x.pid != h.pid) ++ [h])) }
+    { st with reg := regSet st.reg ev (sortDesc ((regGet st.reg ev).filter (fun x => !replaceMatches h x) ++ [h])) }
   | .removeFn pid => { st with reg := st.reg.map (fun p => (p.1, p.2.filter (fun x => x.pid != pid))) }
   | .removeEvFn ev pid => { st with reg := regSet st.reg ev ((regGet st.reg ev).filter (fun x => x.pid != pid)) }
+  | .cancelCoro _ => st
+  | .resolveWait wid =>
+    if st.wcancelled.contains wid || st.wresolved.contains wid then st     -- `if _future.done(): return`
+    else { st with wresolved := wid :: st.wresolved, log := st.log ++ [Obs.wres wid] }
+  | .cancelWait wid =>
+    if st.wresolved.contains wid || st.wcancelled.contains wid then st else { st with wcancelled := wid :: st.wcancelled }
+  | .stop => stopAll st
 
 def runActs (own passed : Option Nat) (st : St) : List Act → St
   | [] => st
   | a :: r => runActs own passed (runAct own passed st a) r
 
 /-- `callback(**kwargs)` of a queue event -/
-def runCallback (progs : Nat → Prog) (st : St) (pid sn : Nat) (passed : Option Nat) : St :=
-  runActs none passed { st with log := st.log ++ [Obs.cb pid sn] } (progs pid).acts
+def runCallback (progs : Nat → Prog) (st : St) (pid sn : Nat) (passed : Option Nat) (kw : Kw) : St :=
+  runActs none passed { st with log := st.log ++ [Obs.cb pid sn kw] } (progs pid).acts
 
 /-- the body of `_run_handlers_sequential` from the current handler on, up to the next await or the end -/
 def runTask (progs : Nat → Prog) (t : Task) : List Handler → St → St × Task
-  | [], st => (runCallback progs st t.cb t.sn t.passed, { t with rest := some [], awaiting := none, done := true })
+  | [], st => (runCallback progs st t.cb t.sn t.passed t.kw, { t with rest := some [], awaiting := none, done := true })
   | h :: hs, st =>
+    -- merged_kwargs = posted kwargs (without `queue`) overridden by the handler's kwargs; condition on the merged ones
+    if !condHolds h.cond (kwUpdate t.kw h.kw) then runTask progs t hs st else
     let c := st.cells.length
     let p := progs h.pid
     let st0 := { st with cells := st.cells ++ [{}],
-                         log := st.log ++ [if p.async then Obs.acall h.key t.ev t.sn c else Obs.call h.key t.ev t.sn c] }
+                         log := st.log ++ [if p.async then Obs.acall h.key t.ev t.sn c (kwUpdate t.kw h.kw)
+                                           else Obs.call h.key t.ev t.sn c (kwUpdate t.kw h.kw)] }
     let st1 := if p.async then waitCell st0 c else runActs (some c) none st0 p.acts
     if (getCell st1.cells c).waiter then
       -- queue.event = asyncio.Event(); await queue.event.wait()
@@ -157,7 +234,7 @@ def runTask (progs : Nat → Prog) (t : Task) : List Handler → St → St × Ta
 
 /-- one scheduler step of a dispatch task; `none` = the task cannot run now -/
 def stepTask (progs : Nat → Prog) (st : St) (t : Task) : Option (St × Task) :=
-  if t.done then none else
+  if t.done || t.cancelled then none else
   match t.rest with
   | none =>
     -- first step: "all handlers may have been removed in the meantime" (the callback is still called)
@@ -182,10 +259,16 @@ def resume (progs : Nat → Prog) (st : St) (sn : Nat) : Option St :=
 def dispatchAll (st : St) : List Posted → St
   | [] => st
   | p :: r =>
-    if (regGet st.reg p.ev).isEmpty then dispatchAll { st with cbq := st.cbq ++ [(p.cb, p.sn, p.passed)] } r
-    else dispatchAll { st with tasks := st.tasks ++ [{ sn := p.sn, ev := p.ev, cb := p.cb, passed := p.passed }] } r
+    if (regGet st.reg p.ev).isEmpty then dispatchAll { st with cbq := st.cbq ++ [(p.cb, p.sn, p.passed, p.kw)] } r
+    else dispatchAll { st with tasks := st.tasks ++ [{ sn := p.sn, ev := p.ev, cb := p.cb, passed := p.passed, kw := p.kw }] } r
 
 def dispatch (st : St) : St := dispatchAll { st with pending := [] } st.pending
+
+/-- `_process_queue_event` for one waiting queue event (a plain event's handler may run between two of them) -/
+def dispatchOne (st : St) (sn : Nat) : Option St :=
+  match st.pending.find? (fun p => p.sn = sn) with
+  | none => none
+  | some p => some (dispatchAll { st with pending := st.pending.filter (fun q => q.sn != sn) } [p])
 
 def popLast {α : Type} : List α → Option (List α × α)
   | [] => none
@@ -201,21 +284,67 @@ def callbacks (progs : Nat → Prog) : Nat → St → Option St
     let st := dispatch st
     match popLast st.cbq with
     | none => some st
-    | some (rest, (pid, sn, passed)) => callbacks progs n (runCallback progs { st with cbq := rest } pid sn passed)
+    | some (rest, (pid, sn, passed, kw)) => callbacks progs n (runCallback progs { st with cbq := rest } pid sn passed kw)
+
+/-! ## operations: everything the scheduler / the outside world can do, one at a time -/
+
+inductive Op
+  | top (acts : List Act)            -- code outside any queue-event handler (boot, a plain event's handler, a timer)
+  | dispatch
+  | dispatch1 (sn : Nat)             -- the event loop reaches the queue event with this serial
+  | callbacks (fuel : Nat)
+  | clear (c : Nat)                  -- a timer clears a wait
+  | adone (c : Nat) (o : Outcome)    -- `_async_handler_done` of the coroutine handler holding cell c
+  | resume (sn : Nat)
+  deriving DecidableEq, Repr
+
+/-- `none` = the model says this step cannot happen now -/
+def applyOp (progs : Nat → Prog) (st : St) : Op → Option St
+  | .top acts => some (runActs none none st acts)
+  | .dispatch => some (dispatch st)
+  | .dispatch1 sn => dispatchOne st sn
+  | .callbacks fuel => callbacks progs fuel st
+  | .clear c => some (clearCell st c)
+  | .adone c o => some (asyncDone st c o)
+  | .resume sn => resume progs st sn
+
+/-- a whole schedule; steps that are not enabled are refused (the state stays) -/
+def runOps (progs : Nat → Prog) (st : St) : List Op → St
+  | [] => st
+  | o :: r => runOps progs ((applyOp progs st o).getD st) r
 
 /-! ## driver -/
+
+def parseKw1 (s : String) : Option (Nat × Int) :=
+  match s.splitOn "=" with
+  | [k, v] => do pure (← k.toNat?, ← v.toInt?)
+  | _ => none
+
+/-- `-` = empty, else `k=v,k=v` -/
+def parseKw (s : String) : Option Kw :=
+  if s = "-" then some [] else
+  (s.splitOn ",").foldr (fun a acc => do let rest ← acc; let x ← parseKw1 a; pure (x :: rest)) (some [])
+
+def parseCond (s : String) : Option (Option (Nat × Int)) :=
+  if s = "-" then some none else (parseKw1 s).map some
 
 def parseAct (toks : List String) : Option Act :=
   match toks with
   | ["W"] => some .wait
   | ["C"] => some .clearOwn
   | ["CP"] => some .clearPassed
-  | ["Q", ev, cb, pass] => do pure (.postQueue (← ev.toNat?) (← cb.toNat?) (pass == "1"))
-  | ["A", ev, key, prio, pid] => do pure (.add (← ev.toNat?) ⟨← key.toNat?, ← prio.toInt?, ← pid.toNat?⟩)
+  | ["Q", ev, cb, pass, kw] => do pure (.postQueue (← ev.toNat?) (← cb.toNat?) (pass == "1") (← parseKw kw))
+  | ["A", ev, key, prio, pid, kw, cond] =>
+    do pure (.add (← ev.toNat?) ⟨← key.toNat?, ← prio.toInt?, ← pid.toNat?, ← parseKw kw, ← parseCond cond⟩)
   | ["R", ev, key] => do pure (.remove (← ev.toNat?) (← key.toNat?))
-  | ["H", ev, key, prio, pid] => do pure (.replace (← ev.toNat?) ⟨← key.toNat?, ← prio.toInt?, ← pid.toNat?⟩)
+  | ["H", ev, key, prio, pid, kw] =>
+    do pure (.replace (← ev.toNat?) ⟨← key.toNat?, ← prio.toInt?, ← pid.toNat?, ← parseKw kw, none⟩)
   | ["M", pid] => do pure (.removeFn (← pid.toNat?))
   | ["E", ev, pid] => do pure (.removeEvFn (← ev.toNat?) (← pid.toNat?))
+  | ["X", key] => do pure (.cancelCoro (← key.toNat?))
+  | ["WR", wid] => do pure (.resolveWait (← wid.toNat?))
+  | ["WC", wid] => do pure (.cancelWait (← wid.toNat?))
+  | ["STOP"] => some .stop
   | _ => none
 
 def splitBar : List String → List (List String)
@@ -229,11 +358,14 @@ def parseActs (toks : List String) : Option (List Act) :=
   if toks.isEmpty then some [] else
   (splitBar toks).foldr (fun a acc => do let rest ← acc; let x ← parseAct a; pure (x :: rest)) (some [])
 
+def showKw (kw : Kw) : String := "{" ++ ",".intercalate (kw.map (fun p => toString p.1 ++ "=" ++ toString p.2)) ++ "}"
+
 def showObs : Obs → String
-  | .call key ev sn cell => "c" ++ toString key ++ "." ++ toString ev ++ "." ++ toString sn ++ "." ++ toString cell
-  | .acall _ ev sn cell => "a" ++ toString ev ++ "." ++ toString sn ++ "." ++ toString cell
-  | .cb pid sn => "b" ++ toString pid ++ "." ++ toString sn
+  | .call key ev sn cell kw => "c" ++ toString key ++ "." ++ toString ev ++ "." ++ toString sn ++ "." ++ toString cell ++ showKw kw
+  | .acall _ ev sn cell kw => "a" ++ toString ev ++ "." ++ toString sn ++ "." ++ toString cell ++ showKw kw
+  | .cb pid sn kw => "b" ++ toString pid ++ "." ++ toString sn ++ showKw kw
   | .error w => "E" ++ toString w
+  | .wres wid => "w" ++ toString wid
 
 structure DState where
   progs : List (Nat × Prog) := []
@@ -250,6 +382,20 @@ def answer (d : DState) (st' : St) : DState × String :=
   let obs := st'.log.drop d.st.log.length
   ({ d with st := st' }, if obs.isEmpty then "ok" else " ".intercalate (obs.map showObs))
 
+def parseOutcome : String → Option Outcome
+  | "ok" => some .ok | "cancelled" => some .cancelled | "raised" => some .raised | _ => none
+
+def parseOp (toks : List String) : Option Op :=
+  match toks with
+  | "top" :: acts => (parseActs acts).map .top
+  | ["dispatch"] => some .dispatch
+  | ["dispatch1", sn] => sn.toNat?.map .dispatch1
+  | ["callbacks"] => some (.callbacks 10000)
+  | ["clear", c] => c.toNat?.map .clear
+  | ["adone", c, o] => do pure (.adone (← c.toNat?) (← parseOutcome o))
+  | ["resume", sn] => sn.toNat?.map .resume
+  | _ => none
+
 def driverStep (d : DState) (line : String) : DState × String :=
   match line.splitOn " " with
   | ["reset"] => (init, "ok")
@@ -257,29 +403,16 @@ def driverStep (d : DState) (line : String) : DState × String :=
     match pid.toNat?, parseActs acts with
     | some p, some a => if kind = "s" ∨ kind = "a" then ({ d with progs := (p, ⟨a, kind = "a"⟩) :: d.progs }, "ok") else (d, "bad-op")
     | _, _ => (d, "bad-op")
-  | "top" :: acts =>
-    match parseActs acts with
-    | some a => answer d (runActs none none d.st a)
-    | none => (d, "bad-op")
-  | ["dispatch"] => answer d (dispatch d.st)
-  | ["callbacks"] =>
-    match callbacks (lookupProg d.progs) 10000 d.st with
-    | some st' => answer d st'
-    | none => (d, "diverged")
-  | ["clear", c] =>
-    match c.toNat? with
-    | some c' => answer d (clearCell d.st c')
-    | none => (d, "bad-op")
-  | ["resume", sn] =>
-    match sn.toNat? with
-    | some s => match resume (lookupProg d.progs) d.st s with
-      | some st' => answer d st'
-      | none => (d, "not-enabled")
-    | none => (d, "bad-op")
   | ["quiescent"] =>
-    -- tasks not finished, waits outstanding, callbacks/events left
-    (d, "tasks=" ++ toString (d.st.tasks.filter (fun t => !t.done)).length ++ " waits=" ++
+    -- tasks neither finished nor cancelled, waits outstanding, callbacks/events left
+    (d, "tasks=" ++ toString (d.st.tasks.filter (fun t => !t.done && !t.cancelled)).length ++ " waits=" ++
         toString (d.st.cells.filter (fun c => c.waiter)).length ++ " left=" ++ toString (d.st.pending.length + d.st.cbq.length))
-  | _ => (d, "bad-op")
+  | toks =>
+    match parseOp toks with
+    | none => (d, "bad-op")
+    | some op =>
+      match applyOp (lookupProg d.progs) d.st op with
+      | some st' => answer d st'
+      | none => (d, match op with | .callbacks _ => "diverged" | _ => "not-enabled")
 
 end MpfVerif.QueueEvent
